@@ -940,35 +940,6 @@ FULL statement of the SIMPLIFY clause relative to that reading: for EVERY event 
 SIMPLIFY preserves the probability of the event as y0 reads it, and answers `None` only when the event so read is
 impossible.  So the whole deviation from the property is the reading of `Y_y`. -/
 
-theorem optMapM_total {α β : Type} (f : α → Option β) (l : List α) (h : ∀ x ∈ l, ∃ y, f x = some y) :
-    ∃ r, l.mapM f = some r ∧ ∀ y, y ∈ r ↔ ∃ x ∈ l, f x = some y := by
-  induction l with
-  | nil => exact ⟨[], rfl, by simp⟩
-  | cons a l ih =>
-    obtain ⟨r, hr, hmem⟩ := ih (fun x hx => h x (by simp [hx]))
-    obtain ⟨b, hb⟩ := h a (by simp)
-    refine ⟨b :: r, by simp [List.mapM_cons, hb, hr], fun y => ?_⟩
-    simp only [List.mem_cons, hmem, exists_eq_or_imp, hb, Option.some.injEq]
-    constructor
-    · rintro (rfl | h') <;> [exact Or.inl rfl; exact Or.inr h']
-    · rintro (h' | h') <;> [exact Or.inl h'.symm; exact Or.inr h']
-
-theorem optMapM_none {α β : Type} (f : α → Option β) (l : List α) (h : ∃ x ∈ l, f x = none) :
-    l.mapM f = none := by
-  induction l with
-  | nil => obtain ⟨x, hx, _⟩ := h; cases hx
-  | cons a l ih =>
-    obtain ⟨x, hx, hfx⟩ := h
-    cases ha : f a with
-    | none => simp [List.mapM_cons, ha]
-    | some b =>
-      rcases List.mem_cons.1 hx with rfl | hx'
-      · rw [ha] at hfx; cases hfx
-      · simp [List.mapM_cons, ha, ih ⟨x, hx', hfx⟩]
-
-theorem selfIntervened_iff (v : Var) : selfIntervened v = true ↔ v.name ∈ subNames v := by
-  simp only [selfIntervened, List.any_eq_true, beq_iff_eq, subNames, List.mem_map]
-
 /-- minimisation keeps a variable self-intervened or not -/
 theorem minimize_self (g : MG Name) (v w : Var) (h : minimize g v = .ok w) :
     selfIntervened w = selfIntervened v := by
